@@ -914,12 +914,27 @@ pub fn wrap<S: Strat>(ahead: usize, loads: usize, fill: bool, with_writer: bool)
                 rt::barrier(n);
             });
             for i in 0..loads {
+                let node_before = arc_swap::verif::current_node();
                 let res = std::panic::catch_unwind(std::panic::AssertUnwindSafe(|| {
                     let g = load(&c);
                     let l = g.peek_label();
                     use_value(&g, l, "guard around the generation wrap");
                     drop_guard(g);
                 }));
+                // The load whose transaction used the last generation before the wrap must give
+                // the node up (generations repeat from here on; a helper parked since the last
+                // round could otherwise hit a transaction of the new one). `i + 1 == ahead` is
+                // that load on the fallback-only path, where every load is a transaction.
+                if res.is_ok() && S::NAME == "nofast" && i + 1 == ahead && !rt::draining() {
+                    let now = arc_swap::verif::current_node();
+                    if now.is_some() && now == node_before {
+                        rt::violation(
+                            "C13",
+                            "wrap",
+                            format!("load number {} wrapped the generation counter but the thread still owns the same debt node", i + 1),
+                        );
+                    }
+                }
                 if res.is_err() {
                     let msg = rt::take_last_panic().unwrap_or_default();
                     rt::violation(
